@@ -9,7 +9,7 @@ def run(chk):
                 'trash, a volume trash and a --trash-dir, with orphans and infos without payload, times DAYS in 0..3 and '
                 'no DAYS; the real trash-empty (clock through TRASH_DATE or the virtual clock) must remove exactly the '
                 'doomed pairs and leave the kept ones byte-identical (digest of payload, info unchanged). '
-                'non-trivial = something was purged. Calendar stage: random (now, date, DAYS) triples incl. +-1 s, +-1 day, leap days, years 1..9999, malformed and duplicated dates, on the real trash-empty; TLC evaluates Expired through DayNumber (Dates.tla). Stage concurrent-put: a real trash-put next to a real trash-empty 30 in '
+                'non-trivial = something was purged. Calendar stage: random (now, date, DAYS) triples incl. +-1 s, +-1 day, leap days, years 1..9999, malformed and duplicated dates, on the real trash-empty; TLC evaluates Expired through DayNumber (Dates.tla); the embedding of clock ticks into (day, second) is proved for all naturals with TLAPS (spec/DatesProof.tla). Stage concurrent-put: a real trash-put next to a real trash-empty 30 in '
                 'lock-step (all single pre-emptions, sampled pairs): what is being trashed is not old and must end as a complete '
                 'pair; spec/PutEmpty.tla (WithDays) model-checked')
     chk.assumptions += common.ASSUME + ['orphans are purged with and without DAYS (the property only demands it without)']
@@ -19,9 +19,24 @@ def run(chk):
                                    tuple(sorted(i['date'] for i in g['pre']['items'])), bool(g['pre']['orph']),
                                    bool(g['pre']['strays'])), per_stratum=1, thorough_seeds=1)
     common.fun_laws(chk)
+    embedding_proof(chk)
     common.fun_stage(chk, 'calendar', 'expiry', 60 if chk.tier == 'quick' else 1500)
     concurrent_put(chk)
     chk.exhaustive = chk.tier != 'quick'
+
+
+def embedding_proof(chk):
+    """the tick rule of Trash.tla (date + DAYS * K < now) IS the calendar rule on (day, second) pairs, for every K > 0 and all
+    naturals: spec/DatesProof.tla, proved with TLAPS (Dates!EmbeddingLemma is the same statement, which TLC checks for small
+    ranges).  A proof that no longer goes through is a failure of the machinery, not of trash-cli."""
+    from harness import opspec
+    r = opspec.run_tlaps('DatesProof')
+    if not r['ok']:
+        chk.machinery.append('TLAPS: spec/DatesProof.tla: %d obligation(s) failed: %s' % (r['failed'], r['detail'][-600:]))
+        return
+    chk.notes.append('TLAPS (Z3 back end): DatesProof!Embedding proved for all K > 0, a, b, days in Nat: %d obligations, %.1f s' % (
+        r['obligations'], r['wall']))
+    chk.stage_stats['tlaps:DatesProof'] = {'evaluations': 0, 'nontrivial': 0, 'obligations_proved': r['obligations']}
 
 
 def concurrent_put(chk):
